@@ -21,6 +21,7 @@ func main() {
 	probe.Init()
 	for i, cs := range probe.Plan() {
 		custom, sc := cs.Custom, cs.Sc
+		probe.SetCase(cs)
 		// default resource name: METHOD:path
 		r := probe.New(key, sc, false, func(id string) string { return "GET:/" + id })
 		var opts []sgf.Option
